@@ -57,7 +57,7 @@ def history_excerpt(path, around=None, n=40):
 
 def history_stage(rep, proof_ok, sc, lib, prop, drv, harness_src, gen, tier, seed, replay=None, rule="",
                   nontrivial=None, search_rounds=2, proof_log="", prop_file="", known_patterns=None, nohooks_reps=0,
-                  sweep_kinds=(), sweep_n=40):
+                  sweep_kinds=(), sweep_n=40, sweep_filter=None):
     """runs the scenarios of one property on the scratch build and files violations in rep; returns coverage dict"""
     okd, drv_exe, derr = vlib.build_driver(drv)
     if not okd:
@@ -97,8 +97,13 @@ def history_stage(rep, proof_ok, sc, lib, prop, drv, harness_src, gen, tier, see
         # preemption at that point would
         sw = []
         for k in sweep_kinds:
-            sw += run_scenarios(hexe, drv_exe, scenarios[:sweep_n], sc, tag="sweep%d_%s" % (k, prop),
-                                env={"VH_TARGET_KIND": str(k), "VH_TARGET_US": "200"})
+            # k > 0: delay right after every record of kind k; k < 0: delay just before the next hooked action of a
+            # thread whose latest record was of kind -k (holds open the unhooked code between the two)
+            pick = scenarios[:sweep_n]
+            if k < 0 and sweep_filter:
+                pick = [x for x in scenarios if sweep_filter(x)][:2 * sweep_n]
+            sw += run_scenarios(hexe, drv_exe, pick, sc, tag="sweep%d_%s" % (k, prop),
+                                env={("VH_TARGET_KIND" if k > 0 else "VH_TARGET_PRE_KIND"): str(abs(k)), "VH_TARGET_US": "200"})
         for j, r in enumerate(sw):
             r["i"] = len(res) + j
         stats["runs_with_targeted_delay"] = len(sw)
@@ -224,7 +229,7 @@ def history_stage(rep, proof_ok, sc, lib, prop, drv, harness_src, gen, tier, see
 
 
 def run_sched_property(prop, prop_files, targets, name_re, gen, tier, seed, replay=None, rule="", extra_assumptions=(),
-                       known_patterns=None):
+                       known_patterns=None, extra_sweeps=(), sweep_filter=None):
     """properties decided on the scheduler LTS (Conc/Sched.v): theorems from the shared Properties_Sched*.v files
     (filtered by name) + history conformance of harness/h_sched.c scenarios"""
     rep = vlib.Report(prop, tier, seed)
@@ -247,7 +252,8 @@ def run_sched_property(prop, prop_files, targets, name_re, gen, tier, seed, repl
         cov = history_stage(rep, proof["ok"], sc, lib, prop, "sched", "h_sched.c", gen, tier, seed, replay=replay, rule=rule,
                             proof_log=proof["log"], prop_file=",".join(prop_files), known_patterns=known_patterns,
                             nohooks_reps=3 if tier == "quick" else 2,
-                            sweep_kinds=(40, 30, 34, 42, 33), sweep_n=30 if tier == "quick" else 200)
+                            sweep_kinds=(40, 30, 34, 42, 33) + tuple(extra_sweeps), sweep_n=30 if tier == "quick" else 200,
+                            sweep_filter=sweep_filter)
     return rep.finish(proof, cov)
 
 
